@@ -424,6 +424,7 @@ class Repo(object):
                     return next((d for d in raw.body if isinstance(d, ast.ClassDef) and d.name == name), None)
                 objflat.restore_private_predicates(tree, gone_, lambda name, tree=tree, rel=rel: self._generator_named(tree, rel, name), _cat_class)
             objflat.dataclass_constructors(tree)
+            objflat.classmethod_constructors(tree)
             objflat.plain_local_assignments(tree)
             objflat.merge_registry(tree)
             objflat._link(tree)
